@@ -40,6 +40,20 @@ Proof.
   rewrite E. f_equal. apply IH. intros y Hy [Hc|Hc]; [subst; contradiction | apply (Hs y); [right; exact Hy | exact Hc]].
 Qed.
 
+Lemma last_only_nodup l : NoDup (map tname l) -> last_only l = l.
+Proof.
+  induction l as [|t r IH]; simpl; intros H; [reflexivity|].
+  inversion H; subst. fold (tname t).
+  assert (E : in_str (tname t) (map (fun x => dflt [] (t_name x)) r) = false) by (apply in_str_false; exact H2).
+  rewrite E, andb_false_r, IH by assumption. reflexivity.
+Qed.
+Lemma mapM_tensors_ok l : Forall init_ok l -> mapM deser_tensor l = Ok (map dten l).
+Proof.
+  induction 1 as [|t r Ht Hr IH]; [reflexivity|].
+  rewrite mapM_cons. destruct Ht as (Hw & _). rewrite (deser_tensor_total t Hw). cbn [res_bind].
+  rewrite IH. reflexivity.
+Qed.
+
 Lemma wf_node_conv allow_dev (wfg : list str -> GraphP -> bool) visible n :
   wf_node allow_dev wfg visible n = wf_node allow_dev (fun _ => wfg visible) visible n.
 Proof. reflexivity. Qed.
@@ -102,6 +116,8 @@ Section GraphDeser.
     assert (End : nodup_str (map vname (g_inputs g)) = true) by (apply nodup_str_NoDup; exact (w_ins_nd _ _ _ W)).
     rewrite End. cbn [negb].
     rewrite (phase_inputs g allow_dev visible W). cbn [res_bind].
+    rewrite (mapM_tensors_ok _ (w_inits_ok _ _ _ W)). cbn [res_bind].
+    rewrite (last_only_nodup _ (w_inits_nd _ _ _ W)).
     rewrite (dict_T0 g allow_dev visible W), (phase_inits g allow_dev visible W). cbn [res_bind fst snd].
     rewrite (phase_declare g allow_dev visible W). cbn [res_bind].
     rewrite Hn. cbn [res_bind fst snd].
